@@ -23,6 +23,16 @@ HISTORY = {
     "C12-arrayconst-unspecified-not-cast": "missed at first by C12 (caught by C05 / C01 once const-sized repeat templates were added to family I, which also exposed that compile() dropped const sizes): use template RepeatLet added to C12",
     "C15-gate-cache-reset-at-2-18": "missed at first: every enumerated program is small, the change only acts beyond 2^18 pushed gates; a few programs with 10^5 - 10^6 gates were added to the C15 scan and, as family L, to C01 / C04 / C10 / C11",
     "C17-single-variant-enum-refutable-fields": "missed at first: the refutable patterns of RefutableLet / For / Join were literals in tuples only; a menu of refutable shapes (literal / range / bool inside a single-variant tuple enum, a struct, a multi-variant enum, nested) added",
+    "C01-signed-div-pow2-shortcut": "missed by C01 at first (C03 caught it): family E had no power-of-two literal; 8u8 / 4i8 added to the rich leaf alphabets, and family E now also runs over u64 / i64 / usize (E-wide)",
+    "C05-recursive-type-shared-visited": "missed by C05 at first (C07 caught it by luck through a token swap, C17 after its menu was extended): programs with type definitions of infinite size reached from outside their cycle are now compiled in isolated workers by C05 and are part of the C07 corpus",
+    "C06-panic-cache-evict-hash-order": "missed at first: needs more than 64 panic conditions in one record; large subjects (96-iteration loop, 70 constants, 70 functions, 70-field struct and 70-variant enum) added - the 70-field struct in turn exposed that the exhaustiveness check of the unchanged tree was exponential in the number of fields",
+    "C07-recursive-type-shared-visited-2": "first trial killed the harness itself (stack overflow in the in-process timing of corpus programs, exit 134): corpus originals are now timed in isolated workers, a SIGABRT handler and a watchdog turn crashes and hangs of in-process subject calls into reported C07 violations",
+    "C09-enum-literal-surplus-fields": "missed at first: variant arity was only varied in programmatic literals; text spellings with a surplus field / fields for a unit variant added",
+    "C12-resolve-const-type-nested-arrayconst": "missed at first: C12 never used the literal API; literal_arg / parse_arg / Evaluator round trips over nested const-sized parameter types for all R, C in 0..=3 added - exposing that parse_arg never resolved constant sizes (fixed) and that structs with const-sized fields cannot pass the literal API (known finding)",
+    "C13-gt-circuit-skips-msb": "missed at first: the quick key domain had no two keys whose order depends on the top bit; bit-boundary key domains (all powers of two, 0, 3, MAX) for u8 and u16 keys added",
+    "C14-callee-params-in-const-scope": "missed at first: no program had a constant, a parameter and a local of the same name in different functions; name-clash contexts added to family X",
+    "C16-single-empty-array-param-guard": "missed by C16 at first (C05 and C12 caught it): the zero-sized and const-sized single-array programs are now compiled, validated and evaluated by C16 as well",
+    "C17-struct-literal-dup-plus-missing": "missed at first: duplicate and missing fields were only seeded separately; the combined edit (right count, one name twice) added",
     "C17-match-arms-share-scope": "missed at first: UseAfterScope only covered loop variables and block locals; replaced by a reference model of lexical scoping (every use x every name bound elsewhere but not in scope)",
 }
 rows = []
